@@ -376,22 +376,21 @@ def replay_tier(mod, prop: str, out: List[str]) -> Dict[str, Any]:
             rec = json.load(fd)
         stats["replayed"] += 1
         v = run_single_case(mod, rec["check"], rec["case"])
-        fid = rec.get("finding")
-        status = ledger.get(fid, {}).get("status") if fid else None
-        if status == "known":
-            if v is not None:
-                pred = known_preds.get(fid)
-                if pred is not None and pred(rec["check"], rec["case"], v):
-                    stats["known_still_failing"].append(fid)
-                else:
-                    stats["violations"].append(
-                        {"check": rec["check"], "clause": v.clause, "message": v.message, "case": rec["case"], "from": fn}
-                    )
+        if v is None:
+            continue
+        # a stored case may (also) run into a finding that the ledger lists as known
+        hit = None
+        for kid, pred in known_preds.items():
+            if ledger.get(kid, {}).get("status") == "known" and pred(rec["check"], rec["case"], v):
+                hit = kid
+                break
+        if hit is not None:
+            if hit not in stats["known_still_failing"]:
+                stats["known_still_failing"].append(hit)
         else:
-            if v is not None:
-                stats["violations"].append(
-                    {"check": rec["check"], "clause": v.clause, "message": v.message, "case": rec["case"], "from": fn}
-                )
+            stats["violations"].append(
+                {"check": rec["check"], "clause": v.clause, "message": v.message, "case": rec["case"], "from": fn}
+            )
     return stats
 
 
